@@ -473,8 +473,8 @@ def c11_task(task):
                                      source=src[:600], expected=ref.hex()[:300], got=(got.hex()[:300] if got is not None else None)))
             # the source-level model (model/Assembler.v: assemble_r on the symbols of the source) vs the compiler, on the
             # source as written and on a damaged copy (a symbol dropped / doubled / swapped / replaced)
+            src_model(src, got, outc, nm)       # macros and ~ { } comptime blocks are modelled; ~! { } is Unm in the model
             if nm != 'macro/comptime':
-                src_model(src, got, outc, nm)
                 if rng.random() < 0.3:          # the same source with its whitespace re-drawn (tabs, newlines, runs)
                     ws = ''.join(rng.choice([' ', '  ', '\t', '\n', ' \n ', '\r\n', '\x0b', '\x0c', '\x1c']) if ch == ' ' else ch for ch in src)
                     try:
